@@ -116,6 +116,10 @@ APIS = {
     "fdl.cast": lambda c: fdl.cast(fdl.Partial, c),
     "fdl.copy_with": lambda c: fdl.copy_with(c),
     "fdl.deepcopy_with": lambda c: fdl.deepcopy_with(c),
+    "fdl.deepcopy_with(tagged value)": lambda c: fdl.deepcopy_with(
+        c, **{next(k for k in c.__arguments__ if isinstance(k, str)): l2.TagB.new(5)}),
+    "fdl.copy_with(tagged value)": lambda c: fdl.copy_with(
+        c, **{next(k for k in c.__arguments__ if isinstance(k, str)): l2.TagB.new(5)}),
     "copy.copy": lambda c: copy.copy(c),
     "copy.deepcopy": lambda c: copy.deepcopy(c),
     "tagging.materialize_tags": lambda c: tagging.materialize_tags(c),
@@ -132,7 +136,8 @@ APIS = {
     "transform.replace_unconfigured_partials": lambda c: transform.replace_unconfigured_partials_with_callables(c),
     "debug.grep": lambda c: fdl_grep.grep(c, "a", output_fn=lambda *_: None),
 }
-RETURNS_NEW = {"fdl.cast", "fdl.copy_with", "fdl.deepcopy_with", "copy.copy", "copy.deepcopy",
+RETURNS_NEW = {"fdl.cast", "fdl.copy_with", "fdl.deepcopy_with", "fdl.deepcopy_with(tagged value)",
+               "fdl.copy_with(tagged value)", "copy.copy", "copy.deepcopy",
                "tagging.materialize_tags", "tagging.materialize_tags(tags, clear)",
                "serialization.clear_argument_history", "visualize.with_defaults_trimmed",
                "visualize.with_defaults_trimmed(deep)", "visualize.trimmed", "visualize.structure",
@@ -193,6 +198,25 @@ def run(tier: str, seed: int) -> Result:
             "object identities or history"
         res.failures.append(Failure(None, f"C17 cfg#{i}: {name} changed the configuration passed to it ({what})",
                                     {"api": name, "cfg": repr(cfg)[:1500], "status": status}))
+      # the result of a copy-returning API is independent of its input: editing the tags of the result
+      # (in place) must not show in the input
+      if status == "ok" and name in RETURNS_NEW and out is not cfg and isinstance(out, config_lib.Buildable):
+        try:
+          for b in [x for x in c02.reachable(out) if isinstance(x, config_lib.Buildable)
+                    and not isinstance(x, config_lib.TaggedValueCls)][:4]:
+            for k in [k for k in b.__arguments__ if isinstance(k, str)][:2]:
+              try:
+                fdl.add_tag(b, k, l2.TagB)
+                fdl.remove_tag(b, k, l2.TagB)
+                fdl.clear_tags(b, k)
+              except (AttributeError, ValueError, TypeError):
+                pass
+        except Exception:  # pylint: disable=broad-except
+          pass
+        shallow = name in ("copy.copy", "fdl.cast") or name.startswith("fdl.copy_with")   # share children by design
+        if full_snapshot(cfg) != before and not shallow:
+          res.failures.append(Failure(None, f"C17 cfg#{i}: editing the tags of the result of {name} changed the "
+                                      "configuration that was passed in", {"api": name, "cfg": repr(cfg)[:1500]}))
       if status == "ok" and name in RETURNS_NEW and out is cfg and isinstance(cfg, config_lib.Buildable) \
           and name not in ("visualize.trimmed",):
         res.failures.append(Failure(None, f"C17 cfg#{i}: {name} returned its input instead of a copy",
